@@ -14,8 +14,13 @@ import (
 	"github.com/consensys/gnark/frontend/cs/r1cs"
 	"github.com/consensys/gnark/frontend/cs/scs"
 	stdbits "github.com/consensys/gnark/std/math/bits"
+	"github.com/consensys/gnark/std/rangecheck"
+	"github.com/wormhole-foundation/example-near-light-client/fri"
 	gl "github.com/wormhole-foundation/example-near-light-client/goldilocks"
+	"github.com/wormhole-foundation/example-near-light-client/types"
 	"github.com/wormhole-foundation/example-near-light-client/poseidon"
+
+	"verif/engine/sym"
 )
 
 // Replays run the REAL gadget code (hooks off: the instrumented prologues fall through to the
@@ -30,6 +35,7 @@ type gadgetCircuit struct {
 }
 
 func (c *gadgetCircuit) Define(api frontend.API) error {
+	gc := c
 	chip := gl.New(api)
 	// padding: the commit-based checker only chooses 16-bit limbs for large circuits
 	for i := 0; i < c.Pad; i++ {
@@ -41,6 +47,13 @@ func (c *gadgetCircuit) Define(api frontend.API) error {
 		chip.RangeCheck(v(0))
 	case "RangeN":
 		chip.RangeCheckWithMaxBits(v(0), c.N)
+	case "LeadingZeros":
+		in := loadInstance(replayRepo, "test_circuit")
+		cm := in.Common
+		fc := fri.NewChip(api, &cm, &cm.FriParams)
+		cfg := cm.FriParams.Config
+		cfg.ProofOfWorkBits = gc.N
+		fn[func(*fri.Chip, gl.Variable, types.FriConfig)]("fri.Chip.assertLeadingZeros")(fc, v(0), cfg)
 	case "MulAdd":
 		api.AssertIsEqual(chip.MulAdd(v(0), v(1), v(2)).Limb, c.Out[0])
 	case "Add":
@@ -119,6 +132,8 @@ func strs(bs []*big.Int) []string {
 	return out
 }
 
+var replayRepo = "/repo"
+
 var repoHints = map[string]solver.Hint{}
 
 func init() {
@@ -126,6 +141,11 @@ func init() {
 	repoHints["goldilocks.ReduceHint"] = gl.ReduceHint
 	repoHints["goldilocks.InverseHint"] = gl.InverseHint
 	repoHints["goldilocks.SplitLimbsHint"] = gl.SplitLimbsHint
+	// gnark's own hints that a dishonest prover may also replace
+	for _, h := range append(stdbits.GetHints(), rangecheck.GetHints()...) {
+		n := sym.HintName(h)
+		repoHints[n[strings.LastIndex(n, "/")+1:]] = h
+	}
 }
 
 // runGadgetReplay returns (accepted, error text of the solver if rejected, info).
